@@ -326,4 +326,51 @@ theorem only_attempts_matter_whole (P : Params) (hp : 0 < P.avgPeriod) (ch : Nat
       · exact g2
       · exact hw'
 
+
+/-! ### what a block is priced with -/
+
+/-- **the average a block is priced with is the mean of the height window** ending at the last rated
+    height before it — whatever path (`cached`, reload, incremental) produced it — for a process whose
+    cache is good and whose window has no hole -/
+theorem pricing_average_is_window_mean (P : Params) (hp : 0 < P.avgPeriod) (n : Node) (b : Block)
+    (hg : CacheGood P n) (hw : WindowsWhole P n.db b.height) (t : Ticker) :
+    (getAverages P { n.db with avgTouched := false } n.cache
+        (({ n.db with avgTouched := false } : DB).mostRecentRatesBefore b.height).2).2.get t
+      = avgOf P (window P n.db (n.db.mostRecentRatesBefore b.height).2 t) := by
+  have a1 := good_answer P hp ({ n.db with avgTouched := false } : DB) n.cache
+    (({ n.db with avgTouched := false } : DB).mostRecentRatesBefore b.height).2 hg.ok
+    (cacheSem_congr P n.db _ _ (fun _ _ => rfl) hg.sem)
+    (fun t' => noHole_congr P n.db _ _ t' (fun _ _ => rfl) (hw t')) t
+  rw [a1]
+  rfl
+
+/-- a chain applied block by block, each at the next height, no window with a hole on the way -/
+def WholeChain (P : Params) : Node → List Block → Prop
+  | _, [] => True
+  | n, b :: bs => b.height = n.mem + 1 ∧ WindowsWhole P n.db b.height ∧ WholeChain P (applyBlock P n b).1 bs
+
+theorem runBlocks_good (P : Params) (hp : 0 < P.avgPeriod) (bs : List Block) :
+    ∀ n, CacheGood P n → WholeChain P n bs → CacheGood P (runBlocks P n bs) := by
+  induction bs with
+  | nil => intro n hg _; exact hg
+  | cons b bs ih =>
+    intro n hg hw
+    obtain ⟨hb, hw0, hw'⟩ := hw
+    unfold runBlocks
+    exact ih _ (applyBlock_good P hp n b hb hg hw0) hw'
+
+theorem wholeChain_append (P : Params) (bs : List Block) (b : Block) :
+    ∀ n, WholeChain P n (bs ++ [b]) →
+      WholeChain P n bs ∧ b.height = (runBlocks P n bs).mem + 1 ∧ WindowsWhole P (runBlocks P n bs).db b.height := by
+  induction bs with
+  | nil =>
+    intro n h
+    obtain ⟨h1, h2, _⟩ := h
+    exact ⟨trivial, h1, h2⟩
+  | cons x xs ih =>
+    intro n h
+    obtain ⟨h1, h2, h3⟩ := h
+    obtain ⟨a, b', c⟩ := ih _ h3
+    exact ⟨⟨h1, h2, a⟩, b', c⟩
+
 end Pegnet
